@@ -548,6 +548,20 @@ func (w *World) RunCall(conn grpc.ClientConnInterface, spec *CallSpec) {
 			w.Log(Event{Actor: actor, Op: "cancel"})
 		case "sleep":
 			w.Sleep(op.D)
+		case "waitfault":
+			w.WaitUntil("c:waitfault", func() bool {
+				for _, e := range w.Events {
+					if e.Actor == "fault" {
+						return true
+					}
+				}
+				for _, t := range w.Tuns {
+					if t.Ch != nil && chanDone(t) {
+						return true
+					}
+				}
+				return time.Since(w.Start) >= op.D && op.D > 0
+			})
 		default:
 			panic("unknown caller op " + op.K)
 		}
